@@ -21,7 +21,10 @@ PID = 'C12'
 LEAN_TARGETS = ['CfVerif.Props.C12']
 PROPS_MODULES = ['CfVerif.Props.C12']
 DRIVER = 'Driver/C12.lean'
-REQUIRED_THEOREMS = ['CfVerif.C12.refused_if_too_big']
+REQUIRED_THEOREMS = ['CfVerif.C12.refused_if_too_big', 'CfVerif.C12.upload_covers_once', 'CfVerif.C12.flash_exact',
+                     'CfVerif.C12.write_flash_attempts_bounded', 'CfVerif.C12.write_flash_ok_only_if_acked',
+                     'CfVerif.C12.gen_upload', 'CfVerif.C12.gen_upload_room', 'CfVerif.C12.gen_write_flash', 'CfVerif.C12.gen_retry_test',
+                     'CfVerif.C12.gen_internal_flash', 'CfVerif.C12.gen_constants']
 TRUSTED = []
 ASSUMPTIONS = []
 RULE = ''
